@@ -15,6 +15,7 @@ SW = {"update_means": "?", "update_variances": "?", "update_weights": "?", "mean
 ROOTS = {
     # ---- GMM ---------------------------------------------------------------------------------------
     "gmm.lwl": ("gmm:log_weighted_likelihood", {"data": "U eqv [N,D]", "machine": "obj:GMMMachine"}, True, (None,), None),
+    "gmm.lwl1": ("gmm:log_weighted_likelihood", {"data": "U eqv [D]", "machine": "obj:GMMMachine"}, True, (None,), None),
     "gmm.ll": ("gmm:log_likelihood", {"data": "U eqv [N,D]", "machine": "obj:GMMMachine"}, True, (False, True), None),
     "gmm.ll1": ("gmm:log_likelihood", {"data": "U eqv [D]", "machine": "obj:GMMMachine"}, True, (False,), None),
     "gmm.e_step": ("gmm:e_step", {"data": "U [N,D]", "machine": "obj:GMMMachine"}, True, (False, True), None),
